@@ -314,7 +314,11 @@ theorem rg_nodeSuccess {c : Ctx} {s : St} (h : RX c.P (some c.t) s) (obs : List 
 theorem rg_nodeDefault {c : Ctx} {s : St} (h : RX c.P (some c.t) s) (obs : List Obs) (d : DagRef) (n : Node)
     (below : List Frame) (kw : Kwargs) (hb : RFramesOK c.P below) : RX c.P none (nodeDefault c s obs d n below kw).1 := by
   unfold nodeDefault
-  exact rg_nodeSuccess h _ d n below _ hb
+  split
+  · exact rg_nodeSuccess h _ d n below _ hb
+  · split
+    · exact rg_nodeFail h _ d n below _ hb
+    · exact rg_raiseOut (h.nodeFinally _ _ _) _ below _
 
 theorem rg_nodeSleep {c : Ctx} {s : St} (h : RX c.P (some c.t) s) (obs : List Obs) (d : DagRef) (n : Node) (force : Bool)
     (below : List Frame) (k : Nat) (kw : Kwargs) (inv : Nat) (hb : RFramesOK c.P below) :
